@@ -248,7 +248,7 @@ func concRequests(r *rand.Rand, n int) []concReq {
 	var out []concReq
 	for i := 0; i < n; i++ {
 		q := concReq{Method: "GET", Header: map[string]string{"X-Req-Id": fmt.Sprintf("r%d", i)}}
-		switch k := r.Intn(42); k {
+		switch k := r.Intn(44); k {
 		case 0:
 			q.Kind, q.Path = "static-root", "/"
 		case 1:
@@ -340,6 +340,10 @@ func concRequests(r *rand.Rand, n int) []concReq {
 			q.Header["X-Tenant"] = w()
 		case 39:
 			q.Kind, q.Path = "fi-custom-missing", []string{"/fi/custom/", "/fi/chain/"}[r.Intn(2)]+w() // no X-Tenant: injection fails
+		case 40:
+			// not found AFTER the matcher has bound something: a leading bind segment matches, a later segment fails
+			q.Kind = "not-found-after-bind"
+			q.Path = []string{"/users/" + w() + "/extra", "/pair/" + w() + "-kk/extra", "/opt/" + w() + "/" + w() + "/" + w(), "/cap/" + w() + "/" + w() + "/nope", "/tenant/dyn/" + w() + "/x", "/posts/7/zz"}[r.Intn(6)]
 		default:
 			q.Kind, q.Path = "not-found", "/nowhere/"+w()
 			if r.Intn(2) == 0 {
@@ -412,6 +416,18 @@ func concMain(args []string) {
 		serial[i] = serveOne(f, q)
 		kinds[q.Kind]++
 		statuses[serial[i].Status]++
+	}
+	// "served alone" taken literally: the same request on an instance that has served nothing else. A request served
+	// AFTER others on one instance (no overlap at all) must already get that answer — state carried from one request
+	// to the next (a recycled parameter map, a shared renderer) shows here deterministically, before any goroutine starts.
+	for i, q := range reqs {
+		if alone := serveOne(buildConcApp(filepath.Join(dir, "public")), q); !sameResp(alone, serial[i]) {
+			out, _ := json.MarshalIndent(map[string]interface{}{"what": "a response served after other requests on the same instance differs from the response the same request gets on an instance that served nothing else",
+				"pass": "serial", "request": q, "alone": alone, "after_others": serial[i], "position_in_serial_pass": i, "seed": seed, "tier": tier}, "", " ")
+			_ = os.WriteFile(filepath.Join(dir, "divergence.json"), out, 0o644)
+			fmt.Println(`{"result":"divergent","pass":"serial"}`)
+			os.Exit(1)
+		}
 	}
 	for i, q := range reqs {
 		if again := serveOne(f, q); !sameResp(again, serial[i]) {
